@@ -221,9 +221,43 @@ def module_checks(name, seed, npts):
     return out
 
 
+def icpert_checks(seed, npts):
+    """ICPertFLRW on the EdS background: K_ij == -1/2 d_t gamma_ij holds exactly there (F = 5/2, fL = 1), for ANY
+    curvature perturbation Rc(x,y,z): Rc is a generic order-4 jet, fd is the C07 contract (exact derivative)."""
+    import aurel.solutions.ICPertFLRW as real
+    out = {}
+    rng = random.Random(f'C17/ICPertFLRW/{seed}')
+    for pt in range(npts):
+        F = Field('f')
+        mod = RebMod(real, {'np': ShimNP(F)})
+        sol, _ = load('EdS', F)
+        t0 = rng.uniform(2000.0, 9000.0)
+        t = J(F, 2, {ZERO_MI: t0, (1, 0, 0, 0): 1.0})
+        Rc = tens(J.rand(F, 4, rng, (1, 2, 3)) * 1e-3)
+
+        class FD:
+            def d3x(self, f): return dd(f, 1)
+            def d3y(self, f): return dd(f, 2)
+            def d3z(self, f): return dd(f, 3)
+        gam = as_tensor(mod.gammadown3(sol, FD(), t, Rc), (3, 3))
+        K = as_tensor(mod.Kdown3(sol, FD(), t, Rc), (3, 3))
+        a_ = np.array([[fv(e) for e in row] for row in K])
+        b_ = np.array([[fv(-(dd(e, 0)) * 0.5) if isinstance(e, J) else 0.0 for e in row] for row in gam])
+        err = rel_err(a_, b_, 1e-300 + np.max(np.abs(b_ - np.diag(np.diag(b_)))) + 1e-12 * np.max(np.abs(b_)))
+        o = out.setdefault('(b) Kdown3 == -1/2 d_t gammadown3 on the EdS background, generic Rc (off-diagonal scale)', [0.0, ''])
+        if err > o[0]:
+            o[0], o[1] = err, f'at t={t0}: K = {a_.tolist()} vs {b_.tolist()}'
+        sym = max(abs(a_[i, j] - a_[j, i]) for i in range(3) for j in range(3))
+        o2 = out.setdefault('(b\') Kdown3 and gammadown3 symmetric', [0.0, ''])
+        o2[0] = max(o2[0], sym)
+    return out
+
+
 def _one(args):
     name, seed, npts = args
     try:
+        if name == 'ICPertFLRW':
+            return name, icpert_checks(seed, npts), None
         return name, module_checks(name, seed, npts), None
     except (Undecided, NeedResample) as e:
         return name, {}, f'undecided: {e}'
@@ -238,15 +272,15 @@ def run(R):
     R.trust('float64 evaluation of sin, sinh, exp, log, fractional powers, scipy.special.hyp2f1 and of sympy expressions at 40 digits')
     npts = 6 if R.tier == 'quick' else 32
     R.bounded.append(dict(function='aurel.solutions.*', bound=f'{npts} random points of the domain per module; residual tolerance {TOL}'))
-    R.notes.append('ICPertFLRW is a first-order perturbative initial condition (uses the growth-rate fit f = Omega_m^(6/11)); it is not an exact solution, so obligations (b)/(c) do not apply to it; it is not claimed here')
+    R.notes.append('ICPertFLRW is a first-order perturbative initial condition (growth-rate fit f = Omega_m^(6/11)): not an exact solution, so (c) does not apply; (b) K = -1/2 d_t gamma holds exactly on the EdS background and is checked there for a generic perturbation Rc')
     for n in MODULES:
         mod = importlib.import_module(f'aurel.solutions.{n}')
         for fn in ('gammadown3', 'gdown4', 'alpha', 'betaup3', 'Kdown3', 'Tdown4', 'rho', 'press', 'Kretschmann', 'st_RicciS', 'a', 'Hprop'):
             if hasattr(mod, fn):
                 R.under_contract(getattr(mod, fn))
     t0 = time.time()
-    with mp.Pool(len(MODULES)) as pool:
-        res = pool.map(_one, [(n, R.seed, npts) for n in MODULES])
+    with mp.Pool(len(MODULES) + 1) as pool:
+        res = pool.map(_one, [(n, R.seed, npts) for n in MODULES + ['ICPertFLRW']])
     secs = time.time() - t0
     for name, out, err in res:
         if err:
